@@ -315,4 +315,90 @@ theorem adjustDate_spec (v : DT) (z0 z : Int) (hv : v.Valid) (htz : v.tz = some 
   refine ⟨{ w with tz := some z }, rfl, valid_setTz h2 _ (by intro z' h; cases h; exact hz), rfl, ?_⟩
   rw [localC_setTz, h4]; simp
 
+theorem adjustDateTime_same (v : DT) (tz : Option Int) (h : v.tz = none ∨ tz = none) :
+    adjustDateTime v tz = .ok { v with tz := tz } := by
+  unfold adjustDateTime
+  rcases h with h | h
+  · rw [h]
+  · subst h; cases v.tz <;> rfl
+
+theorem adjustDate_same (v : DT) (tz : Option Int) (h : v.tz = none ∨ tz = none) :
+    adjustDate v tz = .ok { v with tz := tz } := by
+  unfold adjustDate
+  rcases h with h | h
+  · rw [h]
+  · subst h; cases v.tz <;> rfl
+
+/-- `adjust_datetime` never changes an existing object: every cell of the old heap, the argument
+included, is the same afterwards, and the result is a new object holding the adjusted value -/
+theorem adjustObj_spec (isDate : Bool) (h : List DT) (i : Nat) (tz : Option Int) (h' : List DT) (k : Nat)
+    (hr : adjustObj isDate h i tz = .ok (h', k)) :
+    (∀ n, n < h.length → h'[n]? = h[n]?) ∧ h.length ≤ k ∧
+    ∃ item, h[i]? = some item ∧
+      (h'[k]?).map Except.ok = some (if isDate then adjustDate item tz else adjustDateTime item tz) := by
+  unfold adjustObj at hr
+  cases hi : h[i]? with
+  | none => rw [hi] at hr; cases hr
+  | some item =>
+    rw [hi] at hr
+    simp only [] at hr
+    have hset : ∀ w : DT, (h ++ [item]).set h.length w = h ++ [w] := by
+      intro w; simp
+    have hsame : item.tz = none ∨ tz = none →
+        (if isDate then adjustDate item tz else adjustDateTime item tz) = .ok { item with tz := tz } := by
+      intro hc
+      cases isDate
+      · simp only [Bool.false_eq_true, ↓reduceIte]; exact adjustDateTime_same item tz hc
+      · simp only [↓reduceIte]; exact adjustDate_same item tz hc
+    cases hz : item.tz with
+    | none =>
+      rw [hz] at hr
+      simp only [hset, Except.ok.injEq, Prod.mk.injEq] at hr
+      obtain ⟨rfl, rfl⟩ := hr
+      refine ⟨fun n hn => by simp [List.getElem?_append_left hn], Nat.le_refl _, item, rfl, ?_⟩
+      rw [hsame (Or.inl hz)]; simp
+    | some z0 =>
+      cases tz with
+      | none =>
+        rw [hz] at hr
+        simp only [hset, Except.ok.injEq, Prod.mk.injEq] at hr
+        obtain ⟨rfl, rfl⟩ := hr
+        refine ⟨fun n hn => by simp [List.getElem?_append_left hn], Nat.le_refl _, item, rfl, ?_⟩
+        rw [hsame (Or.inr rfl)]; simp
+      | some z =>
+        rw [hz] at hr
+        simp only [] at hr
+        generalize hres : (if isDate then adjustDate item (some z) else adjustDateTime item (some z)) = res at hr
+        cases res with
+        | error e => cases hr
+        | ok r =>
+          simp only [Except.ok.injEq, Prod.mk.injEq] at hr
+          obtain ⟨rfl, rfl⟩ := hr
+          refine ⟨fun n hn => ?_, by simp, item, rfl, ?_⟩
+          · rw [List.append_assoc, List.getElem?_append_left hn]
+          · simp; exact hres.symm
+
+/-- trigger of finding F11n: the implicit timezone matters for a comparison only when exactly one operand
+lacks a timezone and the implicit timezone is not UTC -/
+def ImplicitTzIrrelevant (a b : DT) (itz : Int) : Prop := (a.tz = none ↔ b.tz = none) ∨ itz = 0
+instance (a b : DT) (itz : Int) : Decidable (ImplicitTzIrrelevant a b itz) := by
+  unfold ImplicitTzIrrelevant; exact inferInstance
+
+theorem compare_implicit (op : Cmp) (a b : DT) (itz : Int) (ha : a.Valid) (hb : b.Valid) (hd : CmpDomain a b)
+    (h : ImplicitTzIrrelevant a b itz) :
+    compare op a b = op.op ((absV a).instantI itz) ((absV b).instantI itz) := by
+  rw [compare_spec op a b ha hb hd]
+  obtain ⟨y, m, d, u, z⟩ := a
+  obtain ⟨y', m', d', u', z'⟩ := b
+  unfold ImplicitTzIrrelevant at h
+  simp only [absV, Val.instantI, Val.instantC, Val.localC] at *
+  cases z <;> cases z' <;> simp only [] at h ⊢
+  · rw [← Cmp.op_shift op _ _ (-(itz * Timeline.UM))]; congr 1 <;> omega
+  · rcases h with h | h
+    · simp at h
+    · subst h; congr 1 <;> omega
+  · rcases h with h | h
+    · simp at h
+    · subst h; congr 1 <;> omega
+
 end EPV.Cal
